@@ -17,7 +17,10 @@ RULE = ("histories as for C01/C02 plus non-exclusive kill / signal requests "
         "one loop iteration <= 0.25 s and an iteration guard (no livelock); "
         "read-only replies are on the stream before handle_message returns; "
         "every accepted waiting request is answered within the model's "
-        "bound.  Non-trivial = >= 2 requests overlapped in time, or a death "
+        "bound; an enumerated family issues one waiting request alone on 2-4 "
+        "workers that ignore the stop signal and requires the answer within "
+        "graceful_timeout + numprocesses x warmup_delay (start-type "
+        "requests) + 0.3 s.  Non-trivial = >= 2 requests overlapped in time, or a death "
         "fell inside an operation, or a worker ignored the stop signal; "
         "distinct by hash of the case.")
 ASSUMPTIONS = [
@@ -38,6 +41,8 @@ STATE_CHANGING = ('incr', 'decr', 'set', 'start', 'stop', 'restart',
 
 
 def execute(case):
+    if case.get("tight"):
+        return execute_tight(case)
     h = History(case)
     w = h.world
     k = w.kernel
@@ -257,13 +262,101 @@ def _strategy():
     return case()
 
 
+# ---------------------------------------------------------------------------
+# "within the sum of the applicable graceful_timeout and warm-up delays plus a
+# small constant": one waiting request, nothing else in flight, workers that
+# ignore the stop signal.  The workers of a watcher are terminated together,
+# so the request is answered after ONE graceful_timeout (plus one warm-up
+# delay per worker it starts), whatever numprocesses is.
+TIGHT_CMDS = {
+    "stop": ("stop", {"name": "w0", "match": "simple"}, False),
+    "stop-all": ("stop", {}, False),
+    "rm": ("rm", {"name": "w0"}, False),
+    "quit": ("quit", {}, False),
+    "decr": ("decr", {"name": "w0", "nb": 1}, False),
+    "decr-most": ("decr", {"name": "w0", "nb": 99}, False),
+    "set0": ("set", {"name": "w0", "options": {"numprocesses": 0}}, False),
+    "kill": ("kill", {"name": "w0"}, False),
+    "reload": ("reload", {"name": "w0"}, True),
+    "reload-term": ("reload", {"name": "w0", "graceful": False}, True),
+    "restart": ("restart", {"name": "w0", "match": "simple"}, True),
+}
+TIGHT_CONST = 0.3
+
+
+def execute_tight(case):
+    cmd, props, starts = TIGHT_CMDS[case["cmd"]]
+    np_, gt, warm = case["np"], case["gt"], case["warm"]
+    hc = {"watchers": [{"name": "w0", "numprocesses": np_,
+                        "graceful_timeout": gt, "warmup_delay": warm}],
+          "default_beh": case["beh"], "tape": [], "ops": []}
+    h = History(hc)
+    w = h.world
+    viols = []
+    try:
+        h.start()
+        t0 = w.loop.time()
+        r = w.request(cmd, dict(props, waiting=True))
+        bound = gt + (np_ * warm if starts else 0.0) + TIGHT_CONST
+        w.advance_until(lambda: r.answered, t0 + bound + 30.0)
+        el = w.loop.time() - t0
+        if w.blocked:
+            viols.append(Violation('C05:blocked:%s' % w.blocked_where,
+                                   'event loop blocked'))
+        elif not r.answered:
+            viols.append(Violation(
+                'C05:not-answered-in-time:%s' % cmd,
+                '%s (waiting) alone never answered within %.1f s' % (
+                    cmd, bound + 30.0)))
+        elif el > bound + 1e-6:
+            viols.append(Violation(
+                'C05:completion-exceeds-sum-of-delays:%s' % case["cmd"],
+                '%s (waiting), alone, on %d workers that ignore the stop '
+                'signal was answered after %.3f s; graceful_timeout %.1f + '
+                '%d x warmup_delay %.1f%s + %.1f = %.3f' % (
+                    cmd, np_, el, gt, np_, warm,
+                    '' if starts else ' (not applicable)', TIGHT_CONST,
+                    bound)))
+    finally:
+        h.close()
+    return viols, True, ['tight', 'stubborn-worker']
+
+
+def _tight_cases():
+    for name in sorted(TIGHT_CMDS):
+        for np_ in (2, 3, 4):
+            for gt in (0.3, 1.0):
+                for warm in (0, 0.2):
+                    for beh in ({"react": "ignore"},
+                                {"react": "ignore", "klat": 0.002}):
+                        yield {"tight": True, "cmd": name, "np": np_,
+                               "gt": gt, "warm": warm, "beh": beh}
+
+
 def plan(tier, seed):
     n = 1200 if tier == 'quick' else 12000
-    return [{"seed": seed * 100 + i, "n": n} for i in range(16)]
+    return [{"seed": seed * 100 + i, "n": n} for i in range(16)] + \
+        [{"kind": "tight"}]
 
 
 def run_shard(spec):
     stats = Stats()
+    if spec.get("kind") == 'tight':
+        found = {}
+        for case in _tight_cases():
+            v, nt, cl = execute_tight(case)
+            stats.record(case, nt, cl)
+            for x in v:
+                if x["signature"] in spec["known"]:
+                    stats.known_hits[x["signature"]] = \
+                        stats.known_hits.get(x["signature"], 0) + 1
+                elif x["signature"] not in found:
+                    found[x["signature"]] = {"signature": x["signature"],
+                                             "message": x["message"],
+                                             "case": case}
+        res = stats.as_dict()
+        res["violations"] = list(found.values())
+        return res
     found = hyp_search(_strategy(), execute, stats, spec["seed"], spec["n"],
                        known=spec["known"], max_rounds=6)
     res = stats.as_dict()
